@@ -170,6 +170,18 @@ def m_push(it, recv, args, e, mod, discard):
     return UNIT
 
 
+@method("append")
+def m_append(it, recv, args, e, mod, discard):
+    """Vec::append(&mut other): moves all elements of other to the end of self."""
+    r = it.resolve(recv)
+    o = it.resolve(args[0])
+    if not isinstance(r, VecV) or not isinstance(o, VecV):
+        raise InternalError("append on %s" % type(r).__name__)
+    r.extend(o)
+    del o[:]
+    return UNIT
+
+
 @method("pop")
 def m_pop(it, recv, args, e, mod, discard):
     r = it.resolve(recv)
